@@ -243,6 +243,12 @@ def run(quiet=False, repo=None):
             fail('b64decode %r' % enc)
         if rt._hexlify_model(lb(b)) != b.hex().encode():
             fail('hexlify %r' % b)
+        b2 = b + b'\xfb\xff\xfe'
+        if rt._urlsafe_b64encode_model(lb(b2)) != base64.urlsafe_b64encode(b2):
+            fail('urlsafe_b64encode %r' % b2)
+        if rt._urlsafe_b64decode_model(
+                lb(base64.urlsafe_b64encode(b2))) != b2:
+            fail('urlsafe_b64decode %r' % b2)
     for t in [b'', b'=', b'a', b'ab', b'abc', b'ab=', b'ab==', b'abc=',
               b'a b c d', b'ab\nc=', b'!!!!', b'YQ', b'YQ=', b'=YQ==',
               b'YWJj\xff', b'YQ==YQ==', b'YQ=a', b'YQ=a=', b'Y=Q==', b'=',
